@@ -46,7 +46,7 @@ def run(ck):
         vlib.conformance(ck, "G:all-texts-all-splits(%s,flags %d,len<=%d)" % (name, fl, n), "TraceTokSplit", "trace.cfg", tp,
                          deaths, diag_of, min_events=100, nshards=16, timeout=1800, split_every=4000)
     # ---- V
-    n = 20000 if thorough else 1000
+    n = 8000 if thorough else 1000
     tp = os.path.join(ck.dir, "v.ndjson")
     deaths = vlib.run_executions(exe, lambda st: ["tok", "split-drive", st, n], n, tp, timeout=1200)
     vlib.conformance(ck, "V:corpus-all-1-splits", "TraceTokSplit", "trace.cfg", tp, deaths, diag_of, min_events=n, timeout=1800,
